@@ -613,31 +613,36 @@ static void shared_source_case(const SharedSrc &c, pbt::Ctx &ctx)
     th.emplace_back([&, t] {
       for (int r = 0; r < R; ++r) {
         arrived++;
-        while (arrived.load(std::memory_order_acquire) < (r + 1) * K) {
-        }
+        for (int spins = 0; arrived.load(std::memory_order_acquire) < (r + 1) * K; ++spins)
+          if (spins > 200)
+            std::this_thread::yield();
         {
           BP mineH;
           if ((c.mode + t) % 3 == 0) {
             shared.ptr->refInc();  // explicit acquisition through the raw pointer of the shared handle
             copied++;
-            while (copied.load(std::memory_order_acquire) < (r + 1) * K) {
-            }
+            for (int spins = 0; copied.load(std::memory_order_acquire) < (r + 1) * K; ++spins)
+              if (spins > 200)
+                std::this_thread::yield();
             if (t == 0 && shared.ptr->useCount() != 1 + K)
               bad++, firstBad = firstBad < 0 ? r : firstBad, seen = shared.ptr->useCount();
             release++;
-            while (release.load(std::memory_order_acquire) < (r + 1) * K) {
-            }
+            for (int spins = 0; release.load(std::memory_order_acquire) < (r + 1) * K; ++spins)
+              if (spins > 200)
+                std::this_thread::yield();
             shared.ptr->refDec();
           } else {
             BP mine(shared);  // copy construction from the shared const handle
             copied++;
-            while (copied.load(std::memory_order_acquire) < (r + 1) * K) {
-            }
+            for (int spins = 0; copied.load(std::memory_order_acquire) < (r + 1) * K; ++spins)
+              if (spins > 200)
+                std::this_thread::yield();
             if (t == 0 && mine->useCount() != 1 + K)
               bad++, firstBad = firstBad < 0 ? r : firstBad, seen = mine->useCount();
             release++;
-            while (release.load(std::memory_order_acquire) < (r + 1) * K) {
-            }
+            for (int spins = 0; release.load(std::memory_order_acquire) < (r + 1) * K; ++spins)
+              if (spins > 200)
+                std::this_thread::yield();
           }
         }
       }
